@@ -336,10 +336,14 @@ impl core::ops::Neg for G1Projective {
     #[verifier::external_body]
     fn neg(self) -> (r: G1Projective) { unimplemented!() }
 }
+impl vstd::std_specs::ops::AddAssignSpecImpl<G1Projective> for G1Projective {
+    open spec fn obeys_add_assign_spec() -> bool { true }
+    open spec fn add_assign_req(&self, rhs: G1Projective) -> bool { true }
+    open spec fn add_assign_spec(&self, rhs: G1Projective) -> &G1Projective { &g1_add(*self, rhs) }
+}
 impl core::ops::AddAssign<G1Projective> for G1Projective {
     #[verifier::external_body]
     fn add_assign(&mut self, rhs: G1Projective)
-        ensures *final(self) == g1_add(*old(self), rhs),
     { unimplemented!() }
 }
 impl vstd::std_specs::cmp::PartialEqSpecImpl for G1Projective {
